@@ -369,7 +369,7 @@ func (x *layoutX) expr(e ast.Expr, guard string, lhs ast.Expr) {
 		}
 		if k := readKind(f); k != "" && x.dir == "dec" {
 			op := wireOp{Kind: k, Guard: guard, Pos: c.Pos()}
-			op.Scale = scaleOf(x.info, e)
+			op.Scale = x.scaleThrough(e)
 			op.Field = x.readTarget(lhs, e)
 			if op.Field == "" {
 				op.Field = "?"
@@ -380,6 +380,30 @@ func (x *layoutX) expr(e ast.Expr, guard string, lhs ast.Expr) {
 		}
 		return true
 	})
+}
+
+// scaleThrough: scaleOf, also through conversion helpers of the codec's package with one returned expression
+// (`buf.WriteUint32(timeoutToMillis(data.Timeout))`)
+func (x *layoutX) scaleThrough(e ast.Expr) string {
+	out := scaleOf(x.info, e)
+	if e == nil {
+		return out
+	}
+	ast.Inspect(e, func(n ast.Node) bool {
+		c, ok := n.(*ast.CallExpr)
+		if !ok {
+			return true
+		}
+		g := x.w.Info(core.Callee(x.info, c))
+		if g == nil || g.Pkg != x.fn.Pkg || g.Decl.Body == nil || len(g.Decl.Body.List) != 1 {
+			return true
+		}
+		if rs, ok := g.Decl.Body.List[0].(*ast.ReturnStmt); ok && len(rs.Results) == 1 {
+			out += scaleOf(g.Pkg.TypesInfo, rs.Results[0])
+		}
+		return true
+	})
+	return out
 }
 
 // scaleOf renders multiplications/divisions by literals in the expression.
@@ -407,7 +431,7 @@ func (x *layoutX) valueInfo(e ast.Expr, depth int) (fields []string, scale, trun
 		if d == 0 {
 			return
 		}
-		scale += scaleOf(x.info, e)
+		scale += x.scaleThrough(e)
 		ast.Inspect(e, func(n ast.Node) bool {
 			switch v := n.(type) {
 			case *ast.SelectorExpr:
